@@ -87,6 +87,15 @@ class Pools:
     # ---- magnitudes ---------------------------------------------------------------------
     def magnitude(self, rng, kind=None, allow_zero=True, positive=False):
         kind = kind or rng.choice(["int", "float", "float", "decimal"])
+        if rng.random() < 0.04:
+            # unusual representations of ordinary values: integers beyond 2**53, integral floats, Decimals in
+            # exponent notation or with trailing zeros
+            special = {"int": [2**53 + 1, 10**18 + 7, -(2**60), 123456789012345678], "float": [5.0, -12.0, 1e15, 2.0**60, 1e-5],
+                       "decimal": [Decimal("1E+3"), Decimal("5"), Decimal("2.50"), Decimal("-1.2E-4"), Decimal("1234567890123456789.5")]}[kind]
+            v = rng.choice(special)
+            if positive and v < 0:
+                v = -v
+            return v
         r = rng.random()
         if allow_zero and r < 0.04:
             v = 0
